@@ -90,7 +90,7 @@ fn gen_script(r: &mut Rng, i: u64, exact: bool, stats: &mut BTreeMap<String, u64
         exact as u8
     )];
     let methods: &[&str] = match tr {
-        "reg" => &["get", "get", "get_nc", "add", "add", "add", "add_nc"],
+        "reg" => &["get", "get", "get_nc", "add", "add", "add", "add_nc", "get_d", "add_d"],
         "ro" => &["get", "get", "get", "get_nc"],
         _ => &["get", "get", "add", "add"],
     };
